@@ -34,6 +34,11 @@ func (e *GenEnv) MissingIDs() []int {
 	if len(e.Missing) > 0 {
 		return e.Missing
 	}
+	if e.Proto == "nf9" {
+		// NetFlow v9 field types are plain 16-bit numbers: the upper half (vendor types such as 33000..) is as unknown
+		// to the model as any other id it does not list
+		return []int{434, 500, 9999, 32767, 32768, 33000, 40000, 65535}
+	}
 	return []int{434, 500, 9999, 32767}
 }
 
